@@ -115,6 +115,64 @@ theorem pdu_trailing_response (x s : Bytes) (p : Pdu) (hs : s ≠ []) (h : getRe
 
 /-! ## encrypted payloads: the decoder reads the decrypted octets and nothing else -/
 
+/-! ## Extent at the PDU and scoped-PDU layers
+
+These decoders take the first element of their input and do not look at what follows it (their callers
+hand them exactly one element's worth of content, or reject the remainder themselves — `top_trailing_*`,
+`pdu_trailing_response`). What follows never changes what is decoded. -/
+
+theorem optionFromBer_append (x s : Bytes) (r : (Nat × Bytes) × Bytes)
+    (h : optionFromBer x = .ok r) : optionFromBer (x ++ s) = .ok (r.1, r.2 ++ s) := by
+  unfold optionFromBer at h ⊢
+  split at h
+  · cases h
+  · rename_i hlen
+    rw [if_neg (by simp only [List.length_append]; omega)]
+    obtain ⟨⟨hdr, tail⟩, hp, h⟩ := bind_eq_ok h
+    obtain ⟨hl, _⟩ := parseHeader_ok hp
+    rw [parseHeader_append s hp]
+    simp only [bind_ok] at h ⊢
+    split at h
+    · cases h
+    · rename_i hc
+      rw [if_neg hc]
+      obtain ⟨rest, hr, h⟩ := bind_eq_ok h
+      obtain ⟨v, hv, h⟩ := bind_eq_ok h
+      cases h
+      rw [sliceFrom_ok hl] at hr; cases hr
+      rw [sliceFrom_append hl, sliceTo_append hl, hv]
+      rfl
+
+/-- **C16.pdu_extent**: a PDU is decoded from its own element only: octets after it change nothing -/
+theorem pdu_extent (x s : Bytes) (p : Pdu) (h : pduTryFrom x = .ok p) : pduTryFrom (x ++ s) = .ok p := by
+  unfold pduTryFrom at h ⊢
+  obtain ⟨⟨⟨tag, body⟩, rest⟩, ho, h⟩ := bind_eq_ok h
+  rw [optionFromBer_append x s _ ho]
+  simp only [bind_ok] at h ⊢
+  exact h
+
+/-- **C16.scoped_extent**: the scoped PDU — also the one obtained by decryption, where zero padding or
+anything else may follow the SEQUENCE — is decoded from its own element only -/
+theorem scoped_extent (x s : Bytes) (sp : ScopedPdu) (h : scopedTryFrom x = .ok sp) :
+    scopedTryFrom (x ++ s) = .ok sp := by
+  unfold scopedTryFrom at h ⊢
+  obtain ⟨⟨env, rest⟩, he, h⟩ := bind_eq_ok h
+  rw [fromBer_append sequenceDecoder sequenceDecoder_local s he]
+  simp only [bind_ok] at h ⊢
+  exact h
+
+/-- a definite length that claims more than the enclosing element holds is refused at every layer that
+opens an element with the generic decoder: the PDU layer -/
+theorem pdu_inner_overrun (x : Bytes) (h : Header) (tail : Bytes) (hp : parseHeader x = .ok (h, tail))
+    (hx : 3 ≤ x.length) :
+    ∃ hb, x = hb ++ tail ∧ ∀ t' : Bytes, t'.length < h.length → 3 ≤ (hb ++ t').length →
+      pduTryFrom (hb ++ t') = .err .Incomplete := by
+  obtain ⟨hb, hxe, hall⟩ := inner_overrun x h tail hp
+  refine ⟨hb, hxe, fun t' ht h3 => ?_⟩
+  unfold pduTryFrom optionFromBer
+  rw [if_neg (by omega), hall t' ht]
+  rfl
+
 /-- **C16.decrypt_extent** (DES): whatever the cipher object's private buffer held before (older
 requests, older replies), a successful decrypt parsed exactly the CBC-decrypted octets of this
 message: a declared length that runs past them cannot be satisfied from stale buffer contents -/
